@@ -1,13 +1,18 @@
 // Driver for C20 (AUTO_INCREMENT values are unique, increasing and reported correctly).  Runs generated histories of
-// INSERT / INSERT IGNORE (explicit, NULL, 0 and omitted ids), DELETE and ALTER TABLE ... AUTO_INCREMENT on one table
-// through the real engine, records after every statement OkResult.InsertID, LAST_INSERT_ID(),
+// INSERT / INSERT IGNORE (explicit, NULL, 0 and omitted ids; rows may collide in a second unique column), DELETE and
+// ALTER TABLE ... AUTO_INCREMENT on one table whose id column is TINYINT ... BIGINT UNSIGNED (histories also go to the
+// type's maximum) through the real engine, records after every statement OkResult.InsertID, LAST_INSERT_ID(),
 // Table.PeekNextAutoIncrementValue and the stored ids for the Coq model (Corr/C20.v), and evaluates the property on the
 // implementation alone with an independent reference (MySQL's documented behaviour).
+//
+// Ids are handled as "virtual" int64 values: the real id x is x itself while small, and vmax - (tmax - x) near the top of
+// a wide type (the generator only uses small ids and ids within a few steps of the type maximum), which keeps order and
+// +1 steps; real decimal values appear only in the SQL text and in the Coq terms.
 package main
 
 import (
 	"fmt"
-	"sort"
+	"math/big"
 	"strings"
 
 	"github.com/dolthub/go-mysql-server/sql"
@@ -17,54 +22,120 @@ import (
 	"verifharness/lib/eng"
 )
 
+type idType struct {
+	SQL    string
+	Max    string
+	Signed bool
+}
+
+var idTypes = []idType{
+	{"BIGINT", "9223372036854775807", true},
+	{"BIGINT UNSIGNED", "18446744073709551615", false},
+	{"TINYINT", "127", true},
+	{"TINYINT UNSIGNED", "255", false},
+	{"SMALLINT", "32767", true},
+	{"INT UNSIGNED", "4294967295", false},
+}
+
+const smallLimit = int64(1) << 40
+const vTop = int64(1) << 50
+
+type dom struct {
+	t    idType
+	tmax *big.Int
+	vmax int64
+}
+
+func newDom(t idType) dom {
+	m, _ := new(big.Int).SetString(t.Max, 10)
+	d := dom{t: t, tmax: m}
+	if m.IsInt64() && m.Int64() < smallLimit {
+		d.vmax = m.Int64()
+	} else {
+		d.vmax = vTop
+	}
+	return d
+}
+
+// real value of a virtual id, as a decimal string
+func (d dom) real(v int64) string {
+	if v < smallLimit {
+		return fmt.Sprintf("%d", v)
+	}
+	return new(big.Int).Sub(d.tmax, big.NewInt(d.vmax-v)).String()
+}
+
+// virtual id of a real value
+func (d dom) virt(x *big.Int) int64 {
+	if x.IsInt64() && x.Int64() < smallLimit {
+		return x.Int64()
+	}
+	return d.vmax - new(big.Int).Sub(d.tmax, x).Int64()
+}
+
+// value returned by the engine (intN / uintN); unsignedWrap: a uint64 that may be a wrapped negative int64
+func (d dom) fromEngine(v interface{}, unsignedWrap bool) (*big.Int, error) {
+	x, ok := new(big.Int).SetString(fmt.Sprint(v), 10)
+	if !ok {
+		return nil, fmt.Errorf("not an integer: %v (%T)", v, v)
+	}
+	if unsignedWrap && d.t.Signed && x.Cmp(new(big.Int).Lsh(big.NewInt(1), 63)) >= 0 {
+		x.Sub(x, new(big.Int).Lsh(big.NewInt(1), 64))
+	}
+	return x, nil
+}
+
 type Spec struct {
 	Gen  bool   `json:"gen,omitempty"`  // NULL / 0 / column omitted
-	Form string `json:"form,omitempty"` // "null" | "zero" (how a generated id is written)
-	K    int64  `json:"k,omitempty"`    // explicit id (non-zero)
+	Form string `json:"form,omitempty"` // "null" | "zero"
+	K    int64  `json:"k,omitempty"`    // explicit (virtual) id, non-zero
+	U    int64  `json:"u"`              // value of the unique column u
 }
 
 type Event struct {
 	Kind  string `json:"kind"` // insert | ignore | delge | deleq | alter
 	Specs []Spec `json:"specs,omitempty"`
-	Omit  bool   `json:"omit,omitempty"` // INSERT INTO t (v) VALUES ...  (all ids generated)
-	K     int64  `json:"k,omitempty"`
+	Omit  bool   `json:"omit,omitempty"` // INSERT INTO t (u, v) VALUES ...  (all ids generated)
+	K     int64  `json:"k,omitempty"`    // virtual
 }
 
 type caseT struct {
+	Type   int      `json:"type"`
 	Events []Event  `json:"events"`
 	SQL    []string `json:"sql,omitempty"`
 }
 
-func coqSpec(s Spec) string {
-	if s.Gen {
-		return "None"
-	}
-	return "(Some " + lib.CoqZ(s.K) + ")"
-}
+func coqZs(s string) string { return lib.CoqZStr(s) }
 
-func (e Event) Coq() string {
+func (e Event) Coq(d dom, udup []bool) string {
 	switch e.Kind {
-	case "insert":
-		return "(EInsert false " + lib.CoqListOf(e.Specs, coqSpec) + ")"
-	case "ignore":
-		return "(EInsert true " + lib.CoqListOf(e.Specs, coqSpec) + ")"
+	case "insert", "ignore":
+		items := make([]string, len(e.Specs))
+		for i, s := range e.Specs {
+			id := "None"
+			if !s.Gen {
+				id = "(Some " + coqZs(d.real(s.K)) + ")"
+			}
+			items[i] = lib.CoqTuple(id, lib.CoqBool(udup[i]))
+		}
+		return fmt.Sprintf("(EInsert %s %s)", lib.CoqBool(e.Kind == "ignore"), lib.CoqList(items))
 	case "delge":
-		return "(EDelGe " + lib.CoqZ(e.K) + ")"
+		return "(EDelGe " + coqZs(d.real(e.K)) + ")"
 	case "deleq":
-		return "(EDelEq " + lib.CoqZ(e.K) + ")"
+		return "(EDelEq " + coqZs(d.real(e.K)) + ")"
 	case "alter":
-		return "(EAlter " + lib.CoqZ(e.K) + ")"
+		return "(EAlter " + coqZs(d.real(e.K)) + ")"
 	}
 	panic("bad event")
 }
 
-func (e Event) SQL(serial *int64) string {
+func (e Event) SQL(d dom, serial *int64) string {
 	switch e.Kind {
 	case "insert", "ignore":
 		var rows []string
 		for _, s := range e.Specs {
 			*serial++
-			id := fmt.Sprintf("%d", s.K)
+			id := d.real(s.K)
 			if s.Gen {
 				id = "NULL"
 				if s.Form == "zero" {
@@ -72,9 +143,9 @@ func (e Event) SQL(serial *int64) string {
 				}
 			}
 			if e.Omit {
-				rows = append(rows, fmt.Sprintf("(%d)", *serial))
+				rows = append(rows, fmt.Sprintf("(%d,%d)", s.U, *serial))
 			} else {
-				rows = append(rows, fmt.Sprintf("(%s,%d)", id, *serial))
+				rows = append(rows, fmt.Sprintf("(%s,%d,%d)", id, s.U, *serial))
 			}
 		}
 		q := "INSERT "
@@ -82,23 +153,36 @@ func (e Event) SQL(serial *int64) string {
 			q += "IGNORE "
 		}
 		if e.Omit {
-			return q + "INTO t (v) VALUES " + strings.Join(rows, ",")
+			return q + "INTO t (u, v) VALUES " + strings.Join(rows, ",")
 		}
 		return q + "INTO t VALUES " + strings.Join(rows, ",")
 	case "delge":
-		return fmt.Sprintf("DELETE FROM t WHERE id >= %d", e.K)
+		return "DELETE FROM t WHERE id >= " + d.real(e.K)
 	case "deleq":
-		return fmt.Sprintf("DELETE FROM t WHERE id = %d", e.K)
+		return "DELETE FROM t WHERE id = " + d.real(e.K)
 	case "alter":
-		return fmt.Sprintf("ALTER TABLE t AUTO_INCREMENT = %d", e.K)
+		return "ALTER TABLE t AUTO_INCREMENT = " + d.real(e.K)
 	}
 	panic("bad event")
 }
 
 func gen(r *lib.RNG) caseT {
-	var c caseT
+	c := caseT{Type: r.Intn(len(idTypes))}
+	d := newDom(idTypes[c.Type])
 	n := r.Range(6, 14)
-	hi := int64(0) // rough upper bound of the ids in use, to aim explicit values and deletes
+	hi := int64(0) // rough upper bound of the ids in use
+	clamp := func(v int64) int64 {
+		if v > d.vmax {
+			return d.vmax
+		}
+		if v >= smallLimit && v < d.vmax-1000 { // keep away from the gap of the virtual encoding
+			return d.vmax - 3
+		}
+		return v
+	}
+	var us []int64
+	nextU := int64(0)
+	toTop := r.Chance(1, 3) // this history visits the type maximum
 	for i := 0; i < n; i++ {
 		var e Event
 		k := r.Intn(20)
@@ -112,22 +196,31 @@ func gen(r *lib.RNG) caseT {
 			e.Kind = "ignore"
 		case k < 16:
 			e.Kind = "delge"
-			e.K = hi - int64(r.Intn(3))
+			e.K = clamp(hi - int64(r.Intn(3)))
 		case k < 18:
 			e.Kind = "deleq"
-			e.K = 1 + int64(r.Intn(int(hi)+1))
+			if hi >= smallLimit {
+				e.K = clamp(hi - int64(r.Intn(3)))
+			} else {
+				e.K = 1 + int64(r.Intn(int(hi)+1))
+			}
 		default:
 			e.Kind = "alter"
-			if r.Chance(1, 4) {
-				e.K = 1 + int64(r.Intn(int(hi)+1)) // possibly below the current maximum
-			} else {
-				e.K = hi + 1 + int64(r.Intn(6))
+			switch {
+			case toTop && r.Chance(1, 2):
+				e.K = d.vmax - int64(r.Intn(3))
+				hi = e.K
+			case r.Chance(1, 4) && hi < smallLimit:
+				e.K = clamp(1 + int64(r.Intn(int(hi)+1))) // possibly below the current maximum
+			default:
+				e.K = clamp(hi + 1 + int64(r.Intn(6)))
 				hi = e.K
 			}
 		}
 		if e.Kind == "insert" || e.Kind == "ignore" {
 			m := r.Range(1, 3)
 			allGen := true
+			used := map[int64]bool{}
 			for j := 0; j < m; j++ {
 				var s Spec
 				switch x := r.Intn(10); {
@@ -136,19 +229,46 @@ func gen(r *lib.RNG) caseT {
 					if r.Chance(1, 4) {
 						s.Form = "zero"
 					}
-					hi++
+					hi = clamp(hi + 1)
 				case x < 9:
-					s.K = 1 + int64(r.Intn(int(hi)+4))
+					if toTop && r.Chance(1, 4) {
+						s.K = d.vmax - int64(r.Intn(3))
+					} else if hi >= smallLimit {
+						s.K = clamp(hi - 2 + int64(r.Intn(4)))
+					} else {
+						s.K = clamp(1 + int64(r.Intn(int(hi)+4)))
+					}
 					if s.K > hi {
 						hi = s.K
 					}
 				default:
-					s.K = -int64(r.Range(1, 3))
+					if d.t.Signed {
+						s.K = -int64(r.Range(1, 3))
+					} else {
+						s.Gen, s.Form = true, "null"
+						hi = clamp(hi + 1)
+					}
 				}
 				if !s.Gen {
 					allGen = false
 				}
+				// the unique column: mostly fresh, sometimes a value used by an earlier statement
+				nextU++
+				s.U = nextU
+				if len(us) > 0 && r.Chance(1, 5) {
+					if o := lib.Pick(r, us); !used[o] {
+						s.U = o
+						// a row that may be skipped as a duplicate in u does not carry an explicit id above the counter (Corr/C20.v: risky)
+						if !s.Gen && s.K > 0 {
+							s.K = 1 + int64(r.Intn(2))
+						}
+					}
+				}
+				used[s.U] = true
 				e.Specs = append(e.Specs, s)
+			}
+			for _, s := range e.Specs {
+				us = append(us, s.U)
 			}
 			if allGen && r.Chance(1, 3) {
 				e.Omit = true
@@ -159,56 +279,9 @@ func gen(r *lib.RNG) caseT {
 	return c
 }
 
-// ---------- reference (MySQL's documented behaviour; a failed statement leaves no row and, as the engine's table data
-// is restored, no counter change either) ----------
-type ref struct {
-	ctr    int64
-	stored map[int64]bool
-}
-
-func (r *ref) max() int64 {
-	m := int64(0)
-	for k := range r.stored {
-		if k > m {
-			m = k
-		}
-	}
-	return m
-}
-
-// insert returns (ok, ids given to the rows that were inserted (nil entry = skipped), first generated id or 0)
-func (r *ref) insert(e Event) (bool, []*int64, int64) {
-	ctr := r.ctr
-	added := map[int64]bool{}
-	out := make([]*int64, len(e.Specs))
-	firstGen := int64(0)
-	for i, s := range e.Specs {
-		id := s.K
-		if s.Gen {
-			id = ctr
-		}
-		if r.stored[id] || added[id] {
-			if e.Kind == "ignore" {
-				continue
-			}
-			return false, nil, 0
-		}
-		added[id] = true
-		v := id
-		out[i] = &v
-		if s.Gen && firstGen == 0 {
-			firstGen = id
-		}
-		if id >= ctr {
-			ctr = id + 1
-		}
-	}
-	for k := range added {
-		r.stored[k] = true
-	}
-	r.ctr = ctr
-	return true, out, firstGen
-}
+// The predicate below needs no id counter of its own: which ids the engine generates is judged only by freshness (above
+// every id in use), and whether a statement must fail only by what is independent of the counter (a duplicate explicit
+// id, a duplicate u value, the type maximum being used up).
 
 func peek(s *eng.S) (uint64, error) {
 	db, err := s.E.Pro.Database(s.Ctx, "db")
@@ -226,34 +299,17 @@ func peek(s *eng.S) (uint64, error) {
 	return at.PeekNextAutoIncrementValue(s.Ctx)
 }
 
-func scalar(s *eng.S, q string) (int64, error) {
-	r := s.Query(q)
-	if r.Err != nil {
-		return 0, r.Err
-	}
-	if len(r.Rows) != 1 || len(r.Rows[0]) != 1 {
-		return 0, fmt.Errorf("%s: unexpected shape", q)
-	}
-	switch x := r.Rows[0][0].(type) {
-	case int64:
-		return x, nil
-	case uint64:
-		return int64(x), nil
-	case int:
-		return int64(x), nil
-	}
-	return 0, fmt.Errorf("%s: unexpected type %T", q, r.Rows[0][0])
-}
-
 var sigCount = map[string]int{}
 
 func run(c *lib.Ctx, cs caseT) {
+	d := newDom(idTypes[cs.Type])
 	e := eng.New("db")
 	se := e.Session()
-	create := "CREATE TABLE t (id BIGINT NOT NULL AUTO_INCREMENT PRIMARY KEY, v BIGINT)"
+	create := "CREATE TABLE t (id " + d.t.SQL + " NOT NULL AUTO_INCREMENT PRIMARY KEY, u BIGINT, v BIGINT, UNIQUE KEY uu (u))"
 	se.MustExec(create)
 	cs.SQL = []string{create}
-	rf := &ref{ctr: 1, stored: map[int64]bool{}}
+	preIDs := map[int64]bool{} // ids stored before the statement (observed)
+	lowBound := int64(1)       // the id counter is at least this (ids stored so far, ALTER values); vmax + 1 = used up
 	var steps []string
 	type pf struct{ sig, what string }
 	var fails []pf
@@ -262,11 +318,23 @@ func run(c *lib.Ctx, cs caseT) {
 	floor := int64(0) // every generated id must exceed it: ids stored now or inserted since the last ALTER
 	lowered := false  // an ALTER TABLE ... AUTO_INCREMENT = n with n <= max(id) happened
 	interesting := false
+	storedU := map[int64]bool{}
+	c.Count("id_type_" + strings.ReplaceAll(d.t.SQL, " ", "_"))
 	for _, ev := range cs.Events {
 		before := serial
-		q := ev.SQL(&serial)
+		q := ev.SQL(d, &serial)
 		cs.SQL = append(cs.SQL, q)
-		preMax := rf.max()
+		preMax := int64(0)
+		for k := range preIDs {
+			if k > preMax {
+				preMax = k
+			}
+		}
+		exhausted := lowBound > d.vmax // the type maximum has been used
+		udup := make([]bool, len(ev.Specs))
+		for i, s := range ev.Specs {
+			udup[i] = storedU[s.U]
+		}
 		res := se.Query(q)
 		if res.Panic != "" {
 			fails = append(fails, pf{"panic/" + ev.Kind, q + " panicked: " + res.Panic})
@@ -283,134 +351,189 @@ func run(c *lib.Ctx, cs caseT) {
 				insertID = okr.InsertID
 			}
 		}
-		lidNow, err1 := scalar(se, "SELECT LAST_INSERT_ID()")
+		lr := se.Query("SELECT LAST_INSERT_ID()")
 		ctrNow, err2 := peek(se)
-		sel := se.Query("SELECT id, v FROM t ORDER BY id")
-		if err1 != nil || err2 != nil || sel.Err != nil {
-			fails = append(fails, pf{"observe-failed", fmt.Sprint(err1, err2, sel.Err)})
+		sel := se.Query("SELECT id, u, v FROM t ORDER BY id")
+		if lr.Err != nil || len(lr.Rows) != 1 || err2 != nil || sel.Err != nil {
+			fails = append(fails, pf{"observe-failed", fmt.Sprint(lr.Err, err2, sel.Err)})
 			break
 		}
+		lidBig, err := d.fromEngine(lr.Rows[0][0], true)
+		if err != nil {
+			fails = append(fails, pf{"observe-failed", err.Error()})
+			break
+		}
+		lidNow := d.virt(lidBig)
 		var ids []int64
+		var idsReal []string
 		byV := map[int64]int64{}
+		storedU = map[int64]bool{}
 		for _, r := range sel.Rows {
-			ids = append(ids, r[0].(int64))
+			x, err := d.fromEngine(r[0], false)
+			if err != nil {
+				fails = append(fails, pf{"observe-failed", err.Error()})
+				break
+			}
+			ids = append(ids, d.virt(x))
+			idsReal = append(idsReal, x.String())
+			if r[2] != nil {
+				byV[r[2].(int64)] = d.virt(x)
+			}
 			if r[1] != nil {
-				byV[r[1].(int64)] = r[0].(int64)
+				storedU[r[1].(int64)] = true
 			}
 		}
-		sort.Slice(ids, func(i, j int) bool { return ids[i] < ids[j] })
-		iidZ := fmt.Sprintf("%d%%Z", insertID)
-		steps = append(steps, lib.CoqTuple(ev.Coq(), lib.CoqTuple(lib.CoqBool(succeeded), iidZ, lib.CoqZ(lidNow), fmt.Sprintf("%d%%Z", ctrNow), lib.CoqListOf(ids, lib.CoqZ))))
+		steps = append(steps, lib.CoqTuple(ev.Coq(d, udup), lib.CoqTuple(lib.CoqBool(succeeded), fmt.Sprintf("%d%%Z", insertID), coqZs(lidBig.String()),
+			fmt.Sprintf("%d%%Z", ctrNow), lib.CoqListOf(idsReal, coqZs))))
 		c.Count("stmt_" + ev.Kind)
 
 		// ---- property predicate on the implementation alone ----
 		after := "other"
-		if lowered {
+		switch {
+		case lowered:
 			after = "after-alter-below-max"
+		case exhausted:
+			after = "at-type-maximum"
 		}
-		where := fmt.Sprintf("%s (history: %s)", q, strings.Join(cs.SQL[1:len(cs.SQL)-1], "; "))
+		where := fmt.Sprintf("%s (table %s; history: %s)", q, create, strings.Join(cs.SQL[1:len(cs.SQL)-1], "; "))
 		switch ev.Kind {
 		case "insert", "ignore":
-			refOK, _, _ := rf.insert(ev)
-			if succeeded != refOK {
-				interesting = true
-				if succeeded {
-					fails = append(fails, pf{"insert-accepted-but-reference-rejects/" + after, where})
-				} else {
-					fails = append(fails, pf{"insert-rejected-but-reference-accepts/" + after, fmt.Sprintf("%s: %v", where, res.Err)})
+			// must the statement fail, whatever the counter is?  (plain INSERT: a duplicate explicit id or u value)
+			mustFail, explicitClash := false, false
+			seenK := map[int64]bool{}
+			nGen := int64(0)
+			for i, s := range ev.Specs {
+				if s.Gen {
+					nGen++
+				}
+				if udup[i] {
+					mustFail = true
+				}
+				if !s.Gen {
+					if preIDs[s.K] || seenK[s.K] {
+						mustFail = true
+					}
+					seenK[s.K] = true
+					if s.K > preMax {
+						explicitClash = true // may coincide with an id generated in the same statement
+					}
+				}
+			}
+			if ev.Kind == "insert" {
+				switch {
+				case succeeded && mustFail:
+					interesting = true
+					fails = append(fails, pf{"insert-accepted-with-duplicate-id-or-unique-value/" + after, where})
+				case !succeeded && !mustFail && !explicitClash && lowBound+nGen-1 <= d.vmax:
+					// only generated ids can have collided: legitimate only when the ids up to the type maximum do not suffice
+					interesting = true
+					fails = append(fails, pf{"insert-of-generated-ids-rejected/" + after, fmt.Sprintf("%s: %v", where, res.Err)})
 				}
 			}
 			if !succeeded {
 				interesting = true
 				break
 			}
-			// the ids the engine gave to this statement's rows, in row order
-			firstGen, firstInserted, skippedBefore, explicitBefore := int64(0), int64(0), false, false
-			seenInserted := false
+			// what happened to this statement's rows, in row order
+			fgIdx := -1 // position of the first row whose id is to be generated (what the analyzer records)
+			for i, s := range ev.Specs {
+				if s.Gen {
+					fgIdx = i
+					break
+				}
+			}
+			haveGen, firstGen := false, int64(0)
+			explicitBefore := false // an explicit-id row was inserted before the first generated one
+			skippedBeforeFg := false
+			fgSkippedThenExplicit := false // row fgIdx was skipped and the next inserted row has an explicit id
+			fgSkipped := false
 			for i, s := range ev.Specs {
 				id, ok := byV[before+int64(i)+1]
 				if !ok {
-					if firstGen == 0 {
-						skippedBefore = true
+					if fgIdx >= 0 && i < fgIdx {
+						skippedBeforeFg = true
+					}
+					if i == fgIdx {
+						fgSkipped = true
 					}
 					continue
 				}
-				if !seenInserted {
-					seenInserted, firstInserted = true, id
+				if fgSkipped && i > fgIdx && !haveGen && !fgSkippedThenExplicit {
+					fgSkippedThenExplicit = !s.Gen
+					fgSkipped = false
 				}
 				if s.Gen {
 					if id <= floor {
 						interesting = true
-						fails = append(fails, pf{"generated-id-not-above-ids-in-use/" + after,
-							fmt.Sprintf("%s: generated id %d although %d was already in use", where, id, floor)})
+						sig := "generated-id-not-above-ids-in-use/other"
+						switch {
+						case lowered:
+							sig = "generated-id-not-above-ids-in-use/after-alter-below-max"
+						case exhausted && id == d.vmax:
+							sig = "generated-id-not-above-ids-in-use/reuses-the-type-maximum-after-delete"
+						}
+						fails = append(fails, pf{sig, fmt.Sprintf("%s: generated id %s although %s was already in use", where, d.real(id), d.real(floor))})
 					}
-					if firstGen == 0 {
-						firstGen = id
+					if !haveGen {
+						haveGen, firstGen = true, id
 					}
-				} else if firstGen == 0 {
+				} else if !haveGen {
 					explicitBefore = true
 				}
 				if id > floor {
 					floor = id
 				}
 			}
-			_ = firstInserted
-			if firstGen != 0 {
+			cause := "other"
+			switch {
+			case ev.Kind == "ignore" && skippedBeforeFg:
+				cause = "ignore-skipped-a-row-before-it"
+			case ev.Kind == "ignore" && fgSkippedThenExplicit:
+				cause = "ignore-first-generated-row-skipped-then-explicit-row"
+			}
+			if haveGen {
 				if lidNow != firstGen {
 					interesting = true
-					sig := "last-insert-id-not-first-generated/" + after
-					if ev.Kind == "ignore" && skippedBefore {
-						sig = "last-insert-id-not-first-generated/ignore-skipped-a-row-before-it"
-					}
-					fails = append(fails, pf{sig, fmt.Sprintf("%s: LAST_INSERT_ID() = %d, first generated id = %d", where, lidNow, firstGen)})
+					fails = append(fails, pf{"last-insert-id-not-first-generated/" + cause,
+						fmt.Sprintf("%s: LAST_INSERT_ID() = %s, first id generated by the statement = %s", where, lidBig.String(), d.real(firstGen))})
 				}
-				if int64(insertID) != firstGen {
+				iid, _ := d.fromEngine(insertID, true)
+				if d.virt(iid) != firstGen {
 					interesting = true
 					sig := "ok-insert-id-not-first-generated/" + after
 					if explicitBefore {
 						sig = "ok-insert-id-not-first-generated/explicit-id-row-before-it"
 					}
-					fails = append(fails, pf{sig, fmt.Sprintf("%s: OkResult.InsertID = %d, first generated id = %d", where, insertID, firstGen)})
+					fails = append(fails, pf{sig, fmt.Sprintf("%s: OkResult.InsertID = %d, first id generated by the statement = %s", where, insertID, d.real(firstGen))})
 				}
 			} else if lidNow != prevLID {
-				fails = append(fails, pf{"last-insert-id-changed-without-generated-value/" + ev.Kind + "/" + after, fmt.Sprintf("%s: LAST_INSERT_ID() %d -> %d", where, prevLID, lidNow)})
+				interesting = true
+				fails = append(fails, pf{"last-insert-id-changed-without-generated-value/" + ev.Kind + "/" + cause,
+					fmt.Sprintf("%s: LAST_INSERT_ID() %s -> %s although the statement generated no id", where, d.real(prevLID), lidBig.String())})
 			}
 		case "delge", "deleq":
-			for k := range rf.stored {
-				if (ev.Kind == "delge" && k >= ev.K) || (ev.Kind == "deleq" && k == ev.K) {
-					delete(rf.stored, k)
-				}
-			}
 			if lidNow != prevLID {
-				fails = append(fails, pf{"last-insert-id-changed-without-generated-value/" + ev.Kind, fmt.Sprintf("%s: LAST_INSERT_ID() %d -> %d", where, prevLID, lidNow)})
+				fails = append(fails, pf{"last-insert-id-changed-without-generated-value/" + ev.Kind + "/other", fmt.Sprintf("%s: LAST_INSERT_ID() %s -> %s", where, d.real(prevLID), lidBig.String())})
 			}
 		case "alter":
 			// MySQL: the counter cannot be set at or below the largest id in the table
 			if ev.K <= preMax {
 				lowered = true
-				rf.ctr = preMax + 1
+				lowBound = preMax + 1
 			} else {
-				rf.ctr = ev.K
+				lowBound = ev.K
 			}
 			floor = preMax // an explicit reset: ids freed by earlier deletes may be handed out again
 			if lidNow != prevLID {
-				fails = append(fails, pf{"last-insert-id-changed-without-generated-value/alter", fmt.Sprintf("%s: LAST_INSERT_ID() %d -> %d", where, prevLID, lidNow)})
+				fails = append(fails, pf{"last-insert-id-changed-without-generated-value/alter/other", fmt.Sprintf("%s: LAST_INSERT_ID() %s -> %s", where, d.real(prevLID), lidBig.String())})
 			}
 		}
-		if succeeded || (ev.Kind != "insert") {
-			prevLID = lidNow
-		} else {
-			prevLID = lidNow // after a failed INSERT the value is unspecified: accept whatever it is now
-		}
-		// stored ids must be the reference's unless an earlier defect already made them diverge
-		if !lowered {
-			want := make([]int64, 0, len(rf.stored))
-			for k := range rf.stored {
-				want = append(want, k)
-			}
-			sort.Slice(want, func(i, j int) bool { return want[i] < want[j] })
-			if fmt.Sprint(want) != fmt.Sprint(ids) {
-				fails = append(fails, pf{"stored-ids-differ-from-reference/" + ev.Kind, fmt.Sprintf("%s: stored %v, reference %v", where, ids, want)})
+		prevLID = lidNow // after a failed INSERT the value is unspecified: accept whatever it is now
+		preIDs = map[int64]bool{}
+		for _, k := range ids {
+			preIDs[k] = true
+			if k+1 > lowBound {
+				lowBound = k + 1
 			}
 		}
 	}
@@ -418,7 +541,7 @@ func run(c *lib.Ctx, cs caseT) {
 	if interesting {
 		key = strings.Join(cs.SQL, ";")
 	}
-	id := c.Case(lib.CoqList(steps), cs, key)
+	id := c.Case(lib.CoqTuple(coqZs(d.t.Max), lib.CoqList(steps)), cs, key)
 	c.PredChecked()
 	seen := map[string]bool{}
 	for _, f := range fails {
@@ -434,20 +557,38 @@ func run(c *lib.Ctx, cs caseT) {
 	}
 }
 
-func g(form string) Spec { return Spec{Gen: true, Form: form} }
-func x(k int64) Spec     { return Spec{K: k} }
+func g(form string, u int64) Spec { return Spec{Gen: true, Form: form, U: u} }
+func x(k, u int64) Spec           { return Spec{K: k, U: u} }
 
 func corpus() []caseT {
+	top := vTop
 	return []caseT{
-		{Events: []Event{{Kind: "insert", Specs: []Spec{g("null"), g("null")}}, {Kind: "insert", Specs: []Spec{x(5), g("null")}},
-			{Kind: "insert", Specs: []Spec{g("null"), g("null"), x(1)}}, {Kind: "insert", Specs: []Spec{g("null")}},
-			{Kind: "ignore", Specs: []Spec{x(1), g("null"), x(20)}}, {Kind: "delge", K: 20}, {Kind: "insert", Specs: []Spec{g("zero")}},
-			{Kind: "alter", K: 3}, {Kind: "insert", Specs: []Spec{g("null")}}, {Kind: "insert", Specs: []Spec{g("null")}},
-			{Kind: "insert", Specs: []Spec{g("null")}}}},
-		{Events: []Event{{Kind: "insert", Specs: []Spec{g("null"), g("null"), g("null")}, Omit: true}, {Kind: "delge", K: 3},
-			{Kind: "insert", Specs: []Spec{g("null")}}, {Kind: "alter", K: 10}, {Kind: "insert", Specs: []Spec{g("null")}, Omit: true},
-			{Kind: "deleq", K: 10}, {Kind: "insert", Specs: []Spec{x(-2), g("zero")}}, {Kind: "insert", Specs: []Spec{x(30)}},
-			{Kind: "insert", Specs: []Spec{g("null")}}}},
+		{Type: 0, Events: []Event{{Kind: "insert", Specs: []Spec{g("null", 1), g("null", 2)}}, {Kind: "insert", Specs: []Spec{x(5, 3), g("null", 4)}},
+			{Kind: "insert", Specs: []Spec{g("null", 5), g("null", 6), x(1, 7)}}, {Kind: "insert", Specs: []Spec{g("null", 8)}},
+			{Kind: "ignore", Specs: []Spec{x(1, 9), g("null", 10), x(20, 11)}}, {Kind: "delge", K: 20}, {Kind: "insert", Specs: []Spec{g("zero", 12)}},
+			{Kind: "alter", K: 3}, {Kind: "insert", Specs: []Spec{g("null", 13)}}, {Kind: "insert", Specs: []Spec{g("null", 14)}},
+			{Kind: "insert", Specs: []Spec{g("null", 15)}}}},
+		{Type: 0, Events: []Event{{Kind: "insert", Specs: []Spec{g("null", 1), g("null", 2), g("null", 3)}, Omit: true}, {Kind: "delge", K: 3},
+			{Kind: "insert", Specs: []Spec{g("null", 4)}}, {Kind: "alter", K: 10}, {Kind: "insert", Specs: []Spec{g("null", 5)}, Omit: true},
+			{Kind: "deleq", K: 10}, {Kind: "insert", Specs: []Spec{x(-2, 6), g("zero", 7)}}, {Kind: "insert", Specs: []Spec{x(30, 8)}},
+			{Kind: "insert", Specs: []Spec{g("null", 9)}}}},
+		// the first generated row of an INSERT IGNORE is skipped (duplicate in u), a later generated row is inserted
+		{Type: 0, Events: []Event{{Kind: "insert", Specs: []Spec{g("null", 1)}}, {Kind: "ignore", Specs: []Spec{g("null", 1), g("null", 2), x(9, 3)}},
+			{Kind: "ignore", Specs: []Spec{x(1, 4), g("null", 2), g("null", 5)}}, {Kind: "ignore", Specs: []Spec{g("null", 1), x(20, 6), g("null", 7)}}}},
+		// BIGINT UNSIGNED up to 18446744073709551615: explicit maximum, then generated inserts; delete the maximum; again
+		{Type: 1, Events: []Event{{Kind: "insert", Specs: []Spec{x(top-1, 1)}}, {Kind: "insert", Specs: []Spec{g("null", 2)}},
+			{Kind: "insert", Specs: []Spec{g("null", 3)}}, {Kind: "insert", Specs: []Spec{g("null", 4), g("null", 5)}}, {Kind: "deleq", K: top},
+			{Kind: "insert", Specs: []Spec{g("null", 6)}}, {Kind: "insert", Specs: []Spec{g("null", 7)}}, {Kind: "ignore", Specs: []Spec{g("null", 8), x(7, 9)}}}},
+		{Type: 1, Events: []Event{{Kind: "insert", Specs: []Spec{g("null", 1)}}, {Kind: "alter", K: top}, {Kind: "insert", Specs: []Spec{g("null", 2)}},
+			{Kind: "insert", Specs: []Spec{g("null", 3)}}, {Kind: "insert", Specs: []Spec{g("null", 4)}, Omit: true}}},
+		{Type: 1, Events: []Event{{Kind: "insert", Specs: []Spec{x(top, 1)}}, {Kind: "insert", Specs: []Spec{g("null", 2)}}, {Kind: "delge", K: top},
+			{Kind: "insert", Specs: []Spec{g("zero", 3), g("null", 4)}}}},
+		// narrow types at their maxima
+		{Type: 2, Events: []Event{{Kind: "alter", K: 126}, {Kind: "insert", Specs: []Spec{g("null", 1), g("null", 2)}}, {Kind: "insert", Specs: []Spec{g("null", 3)}},
+			{Kind: "deleq", K: 127}, {Kind: "insert", Specs: []Spec{g("null", 4)}}, {Kind: "insert", Specs: []Spec{g("null", 5)}}}},
+		{Type: 3, Events: []Event{{Kind: "insert", Specs: []Spec{x(255, 1)}}, {Kind: "insert", Specs: []Spec{g("null", 2)}}, {Kind: "insert", Specs: []Spec{x(254, 3)}}}},
+		{Type: 0, Events: []Event{{Kind: "insert", Specs: []Spec{x(top, 1)}}, {Kind: "insert", Specs: []Spec{g("null", 2)}}, {Kind: "deleq", K: top},
+			{Kind: "insert", Specs: []Spec{g("null", 3)}}}},
 	}
 }
 
@@ -456,10 +597,11 @@ func main() {
 		c.Header = "From Coq Require Import List ZArith.\nImport ListNotations.\nFrom GMS Require Import Store.C20AutoInc Corr.C20.\nOpen Scope N_scope."
 		c.CaseType = "C20.case"
 		c.MismatchFn = "C20.mismatches"
-		c.SetRule("one table t(id BIGINT AUTO_INCREMENT PRIMARY KEY, v) per case, 6-14 statements: INSERT / INSERT IGNORE of 1-3 rows with " +
-			"generated (NULL, 0, column omitted), explicit (near the current maximum, colliding or beyond) and negative ids, DELETE of the top " +
-			"ids or of one id, ALTER TABLE AUTO_INCREMENT = n (1/4 of them at or below the maximum). A case is non-trivial when a statement " +
-			"failed or disagreed with the reference; distinct = distinct SQL texts.")
+		c.SetRule("one table t(id <TYPE> AUTO_INCREMENT PRIMARY KEY, u UNIQUE, v) per case, TYPE in BIGINT, BIGINT UNSIGNED, TINYINT [UNSIGNED], " +
+			"SMALLINT, INT UNSIGNED; 6-14 statements: INSERT / INSERT IGNORE of 1-3 rows with generated (NULL, 0, column omitted), explicit " +
+			"(near the current maximum, colliding or beyond, 1/3 of the histories also at the type's maximum) and negative ids, 1/5 of the rows " +
+			"duplicate in u; DELETE of the top ids or of one id; ALTER TABLE AUTO_INCREMENT = n (also below MAX(id) and at the type maximum). " +
+			"A case is non-trivial when a statement failed or disagreed with the reference; distinct = distinct SQL texts.")
 		if c.ReplayFile != "" {
 			var cs caseT
 			lib.LoadReplay(c.ReplayFile, &cs)
